@@ -19,11 +19,14 @@ goroutine have the same effect: the observable log is a function of the
 machine driven by completion events `(w, b)` = "module `w` invoked `next(b)`"
 (`w` is a ghost tag: `next` cannot know its caller).
 
+A `finish` that panics is modelled further down (`Chain`: the stack of nested Start/Stop calls of one goroutine,
+each under its `doFunc`'s deferred recover) and proved to change nothing but that stack.
+
 Modelled, not verified: calls of `next` are serialised (two goroutines calling
 `next` at the same instant race on `index` in Go; under the discipline "one
 completion per started module" only one module is outstanding, so this cannot
-happen); the module list does not change during a phase; `finish` itself
-returns normally.
+happen); the module list does not change during a phase (but see `grun`); `finish`
+does not re-enter the list from inside a synchronous chain.
 -/
 namespace Cell2v.Modules
 
@@ -252,6 +255,89 @@ def sublistB : List Nat → List Nat → Bool
   | _, [] => true
   | [], _ :: _ => false
   | o :: os, x :: xs => if o == x then sublistB os xs else sublistB os (x :: xs)
+
+/-! ### one goroutine's synchronous chain: nested Start/Stop calls, and a completion callback that panics
+
+A module that reports inside its Start/Stop runs the rest of the phase *inside that call*:
+`report → next → doNow → doFunc(successor) → successor.Start → report → …`, and at the very end `finish`.
+Every `doFunc` on that Go stack has its own deferred `recover()`.  `Chain` keeps that stack: the modules whose
+Start/Stop is active on the running goroutine, innermost first.  What the action-level model above treats
+as one atomic step is here a call that may be cut short: when `finish` (user code: the App's / StartNode's
+completion closure, `fin`) panics, the panic unwinds into the innermost active `doFunc` — the wrapper there
+sees a panic of *its* module (`MAct.panic`) and decides by its two flags, exactly as for the module's own
+panic; if its own `next(false)` → `finish(false)` panics again the unwinding goes on into the enclosing
+`doFunc`; with no module underneath (a delayed report on a goroutine of its own, `Filter`'s own `finish(true)`
+on an empty list) the panic reaches the caller of `next` / `Start` / `Stop` (`escaped`).  `fp` = "finish panics". -/
+
+structure Chain where
+  ml : ML
+  ws : Wrap
+  stack : List Nat     -- modules whose Start/Stop is active on the running goroutine, innermost first
+  log : List Ev
+  acts : List MAct     -- ghost: what the wrappers have seen so far (reports; panics reaching a doFunc's recover)
+  escaped : Bool       -- a panic has left the outermost doFunc: it reaches the caller of next / Start / Stop
+  deriving DecidableEq, Repr
+
+/-- the wrapper of a module sees action `a`; the `next` call it makes (if any) runs up to `doFunc` of the
+successor (which becomes the innermost active call) or up to `finish`.  Returns whether `finish` was invoked. -/
+def Chain.act (c : Chain) (a : MAct) : Chain × Bool :=
+  match (c.ws.step a).2 with
+  | none => ({ c with ws := (c.ws.step a).1, acts := c.acts ++ [a] }, false)
+  | some (w, b) =>
+    ({ c with ws := (c.ws.step a).1, acts := c.acts ++ [a], ml := (c.ml.next b).1,
+              log := c.log ++ .call w b :: (c.ml.next b).2, stack := enters (c.ml.next b).2 ++ c.stack },
+     !(finishes (c.ml.next b).2).isEmpty)
+
+/-- a panic unwinds the active Start/Stop calls `st` (innermost first): the deferred handler of each `doFunc`
+recovers it; it travels on only when that handler's own `next(false)` → `finish(false)` panics as well -/
+def Chain.unwind (fp : Bool) (c : Chain) : List Nat → Chain
+  | [] => { c with stack := [], escaped := true }
+  | w :: rest =>
+    if fp && (({ c with stack := rest } : Chain).act (.panic w)).2 then
+      Chain.unwind fp (({ c with stack := rest } : Chain).act (.panic w)).1 rest
+    else (({ c with stack := rest } : Chain).act (.panic w)).1
+
+/-- what the running goroutine does next -/
+inductive COp
+  | report (b : Bool)          -- the innermost active module invokes the callback it was handed
+  | panic                      -- the innermost active module's Start/Stop panics
+  | ret                        -- ... returns (having reported or not)
+  | late (w : Nat) (b : Bool)  -- nothing is active: module `w` reports from a goroutine of its own (delayed completion)
+  deriving DecidableEq, Repr
+
+/-- module `w` invokes its callback; if that ends the phase and `finish` panics, the panic unwinds from there -/
+def Chain.reportBy (fp : Bool) (c : Chain) (w : Nat) (b : Bool) : Chain :=
+  if fp && (c.act (.report w b)).2 then Chain.unwind fp (c.act (.report w b)).1 (c.act (.report w b)).1.stack
+  else (c.act (.report w b)).1
+
+/-- NOT what the code does — the wrapper's closure with its two statements swapped (`next(succ)` first,
+`reported = true` afterwards, i.e. only when `next` returned normally), for the last module of a phase: kept for
+the witness `reported_flag_order_witness` (why the flag must be set before `next` runs) -/
+def Chain.reportBySwapped (fp : Bool) (c : Chain) (w : Nat) (b : Bool) : Chain :=
+  if c.ws.dead.contains w then c
+  else if fp && !(finishes (c.ml.next b).2).isEmpty then
+    Chain.unwind fp { c with ml := (c.ml.next b).1, log := c.log ++ .call w b :: (c.ml.next b).2, acts := c.acts ++ [.report w b] } c.stack
+  else { c with ml := (c.ml.next b).1, log := c.log ++ .call w b :: (c.ml.next b).2, acts := c.acts ++ [.report w b],
+                stack := enters (c.ml.next b).2 ++ c.stack, ws := { c.ws with reported := w :: c.ws.reported } }
+
+def Chain.step (fp : Bool) (c : Chain) : COp → Chain
+  | .report b =>
+    match c.stack with
+    | [] => c
+    | w :: _ => c.reportBy fp w b
+  | .panic => if c.stack.isEmpty then c else Chain.unwind fp c c.stack
+  | .ret => { c with stack := c.stack.tail }
+  | .late w b => if c.stack.isEmpty then c.reportBy fp w b else c    -- (while a chain is running: concurrent, not modelled)
+
+/-- `ModList.Start` / `Stop` up to the first module's Start/Stop (or `finish(true)` on an empty list) -/
+def Chain.init (fp : Bool) (n : Nat) (fwd : Bool) : Chain :=
+  ⟨(filter n fwd).1, {}, enters (filter n fwd).2, (filter n fwd).2, [], fp && !(finishes (filter n fwd).2).isEmpty⟩
+
+def Chain.runFrom (fp : Bool) (c : Chain) : List COp → Chain
+  | [] => c
+  | op :: ops => Chain.runFrom fp (c.step fp op) ops
+
+def Chain.run (fp : Bool) (n : Nat) (fwd : Bool) (ops : List COp) : Chain := Chain.runFrom fp (Chain.init fp n fwd) ops
 
 /-! ### baseapp.App: the state guard around the two phases -/
 
